@@ -363,6 +363,13 @@ NODE_OPS = [i for i, o in enumerate(OPS) if o.split(".")[0] in ("g", "n", "v", "
 RAISING_CAPABLE = list(range(len(OPS)))
 
 
+ONE_SHOT = False   # when set, multi-element arguments are passed as one-shot iterators (the API accepts any Iterable)
+
+
+def _seq(items):
+    return (x for x in items) if ONE_SHOT else items
+
+
 def apply(st: State, op: int, gi: int, a: int, b: int, c: int, d: int = 0):
     """Perform operation `op`; returns the exception type name if the call raised, else None."""
     name = OPS[op]
@@ -373,19 +380,19 @@ def apply(st: State, op: int, gi: int, a: int, b: int, c: int, d: int = 0):
         if name == "g.append":
             g.append(N(a))
         elif name == "g.extend2":
-            g.extend([N(a), N(b)])
+            g.extend(_seq([N(a), N(b)]))
         elif name == "g.insert_before":
             g.insert_before(N(a), N(b))
         elif name == "g.insert_after":
             g.insert_after(N(a), N(b))
         elif name == "g.insert_after2":
-            g.insert_after(N(a), [N(b), N(c)])
+            g.insert_after(N(a), _seq([N(b), N(c)]))
         elif name == "g.remove":
             g.remove(N(a), safe=bool(b % 2))
         elif name == "g.remove2":
-            g.remove([N(a), N(b)], safe=bool(c % 2))
+            g.remove(_seq([N(a), N(b)]), safe=bool(c % 2))
         elif name == "g.remove_safe_many":
-            g.remove([N(a), N(b), N(c)], safe=True)
+            g.remove(_seq([N(a), N(b), N(c)]), safe=True)
         elif name == "g.sort":
             g.sort()
         elif name == "n.replace_input_with":
@@ -400,7 +407,7 @@ def apply(st: State, op: int, gi: int, a: int, b: int, c: int, d: int = 0):
         elif name == "n.prepend":
             N(a).prepend(N(b))
         elif name == "n.append":
-            N(a).append([N(b), N(c)])
+            N(a).append(_seq([N(b), N(c)]))
         elif name == "v.replace_all_uses_with":
             V(a).replace_all_uses_with(V(b), replace_graph_outputs=bool(c % 2))
         elif name == "conv.replace_all_uses_with":
@@ -411,7 +418,7 @@ def apply(st: State, op: int, gi: int, a: int, b: int, c: int, d: int = 0):
             if m == "append":
                 coll.append(V(a))
             elif m == "extend2":
-                coll.extend([V(a), V(b)])
+                coll.extend(_seq([V(a), V(b)]))
             elif m == "insert":
                 coll.insert(b, V(a))
             elif m == "pop":
